@@ -33,7 +33,7 @@ Proof. destruct Hok as [H _]. apply Z.div_pos; [exact H | lia]. Qed.
 
 Lemma first_le_last : first <= last.
 Proof.
-  destruct Hok as [H0 [[H1 _] _]]. unfold first, last. apply Z.div_le_mono; [lia|]. fold start n. lia.
+  destruct Hok as [H0 [H1 _]]. unfold first, last. apply Z.div_le_mono; [lia|]. fold start n. lia.
 Qed.
 
 (* the loop, from byte i on: chunk start P and remaining bits are tied by rem = start + n - P *)
@@ -189,7 +189,7 @@ Lemma single_filter : first = last ->
   sig_filters s = [mkF (s_id s) first (Z.shiftl (Z.ones n) t) n t] /\ t + n <= 8.
 Proof.
   intros E. pose proof start_eq as SE. pose proof t_bound as TB. pose proof last_bounds as LB.
-  destruct Hok as [H0 [[H1 H2] H3]]. fold start n in H0, H1, H2, H3.
+  destruct Hok as [H0 [H1 H3]]. fold start n in H0, H1, H3.
   assert (Htn : t + n <= 8) by lia.
   split; [|exact Htn]. unfold sig_filters. fold start n first last t.
   replace (first =? last) with true by lia.
@@ -208,7 +208,7 @@ Theorem sig_filters_le : s_be s = false ->
 Proof.
   intros Hbe. pose proof first_le_last as FL. pose proof first_nonneg as FN.
   pose proof start_eq as SE. pose proof t_bound as TB.
-  destruct Hok as [H0 [[H1 H2] H3]]. fold start n in H0, H1, H2, H3.
+  destruct Hok as [H0 [H1 H3]]. fold start n in H0, H1, H3.
   destruct (Z.eq_dec first last) as [E | NE].
   - destruct (single_filter E) as [Es Htn]. rewrite Es.
     split; [|split; [|split]].
@@ -228,7 +228,7 @@ Theorem sig_filters_be : s_be s = true -> d08 s = false ->
 Proof.
   intros Hbe Hd. pose proof first_le_last as FL. pose proof first_nonneg as FN.
   pose proof start_eq as SE. pose proof t_bound as TB.
-  destruct Hok as [H0 [[H1 H2] H3]]. fold start n in H0, H1, H2, H3.
+  destruct Hok as [H0 [H1 H3]]. fold start n in H0, H1, H3.
   destruct (Z.eq_dec first last) as [E | NE].
   - destruct (single_filter E) as [Es Htn]. rewrite Es.
     assert (Sym : 2 * t + n = 8).
@@ -258,7 +258,7 @@ Proof.
   destruct (s_be s) eqn:Hbe.
   - destruct (Z.eq_dec first last) as [E | NE].
     + destruct (single_filter E) as [Es Htn]. rewrite Es.
-      pose proof t_bound as TB. destruct Hok as [H0 [[H1 H2] H3]]. fold start n in H0, H1, H2, H3.
+      pose proof t_bound as TB. destruct Hok as [H0 [H1 H3]]. fold start n in H0, H1, H3.
       pose proof first_nonneg as FN.
       split; [|split; [|split]].
       * constructor; [|constructor]. unfold good. cbn [f_byte f_off f_len f_mask]. repeat split; lia.
@@ -276,11 +276,11 @@ End OneSignal.
 
 (* ------------------------------------------------------------------ the value of one signal *)
 Theorem decode_le_spec size s data :
-  sig_ok size s -> s_be s = false -> bytes_ok data ->
+  sig_ok size s -> narrow s -> s_be s = false -> bytes_ok data ->
   sig_raw s data = raw_le (s_start s) (s_size s) data.
 Proof.
-  intros Hok Hbe Hd. destruct (sig_filters_le size s Hok Hbe) as [Hch [Ht _]].
-  destruct Hok as [H0 [[H1 H2] H3]].
+  intros Hok H2 Hbe Hd. unfold narrow in H2. destruct (sig_filters_le size s Hok Hbe) as [Hch [Ht _]].
+  destruct Hok as [H0 [H1 H3]].
   unfold sig_raw. rewrite Hbe. apply Z.bits_inj'. intros j Hj.
   rewrite (le_acc_bits data _ (s_start s)) by (try assumption; lia).
   rewrite raw_le_bits by (try assumption; lia).
@@ -289,11 +289,11 @@ Proof.
 Qed.
 
 Theorem decode_be_spec size s data :
-  sig_ok size s -> s_be s = true -> d08 s = false -> bytes_ok data -> size <= nbits data ->
+  sig_ok size s -> narrow s -> s_be s = true -> d08 s = false -> bytes_ok data -> size <= nbits data ->
   sig_raw s data = raw_be (s_start s) (s_size s) data.
 Proof.
-  intros Hok Hbe Hd8 Hd Hsz. destruct (sig_filters_be size s Hok Hbe Hd8) as [Hch [Ht _]].
-  destruct Hok as [H0 [[H1 H2] H3]]. unfold s_end in H3.
+  intros Hok H2 Hbe Hd8 Hd Hsz. unfold narrow in H2. destruct (sig_filters_be size s Hok Hbe Hd8) as [Hch [Ht _]].
+  destruct Hok as [H0 [H1 H3]]. unfold s_end in H3.
   unfold sig_raw. rewrite Hbe. apply Z.bits_inj'. intros j Hj.
   rewrite (be_acc_bits data _ (s_start s) 0 0) by (try assumption; try lia; intros; apply Z.bits_0).
   rewrite raw_be_bits by (try assumption; lia).
@@ -470,7 +470,7 @@ Lemma wf_pairwise size l a b : wf size l -> In a l -> In b l -> s_id a <> s_id b
 Proof.
   intros [Hall [Hs _]] Ha Hb Hne.
   assert (Hsz : Forall (fun s => 0 <= s_size s) l).
-  { apply Forall_forall. intros x Hx. rewrite Forall_forall in Hall. destruct (Hall x Hx) as [_ [[H _] _]]. lia. }
+  { apply Forall_forall. intros x Hx. rewrite Forall_forall in Hall. destruct (Hall x Hx) as [_ [H _]]. lia. }
   clear Hall. induction l as [|x tl IH]; [contradiction|].
   destruct Ha as [->|Ha], Hb as [->|Hb].
   - contradiction.
@@ -548,13 +548,15 @@ Proof.
   set (s' := mkSig (s_id s) (s_start s) (s_size s) false (s_kind s)).
   assert (Hok' : sig_ok size s') by exact Hok.
   change (raw_le (s_start s) (s_size s) data) with (raw_le (s_start s') (s_size s') data).
-  rewrite <- (decode_le_spec size s' data Hok' eq_refl Hd).
+  assert (N8 : narrow s').
+  { unfold narrow. cbn [s_size s']. destruct (single_filter size s Hok (proj1 (Z.eqb_eq _ _) H1)) as [_ X]. pose proof (mod8_bound (s_start s)). lia. }
+  rewrite <- (decode_le_spec size s' data Hok' N8 eq_refl Hd).
   assert (E : s_start s / 8 = (s_start s + s_size s - 1) / 8).
   { unfold one_byte in H1. destruct (Z.eqb_spec (s_start s / 8) ((s_start s + s_size s - 1) / 8)); [assumption|discriminate]. }
   destruct (single_filter size s Hok E) as [F T8]. destruct (single_filter size s' Hok' E) as [F' _].
   unfold sig_raw. rewrite Hbe, F. cbn [s_be s']. rewrite F'. cbn [s_id s_start s_size s'].
   rewrite be_acc_single. rewrite le_acc_single; [reflexivity | exact Hd |].
-  destruct Hok as [H0 [[Hs1 Hs2] H3]]. pose proof (mod8_bound (s_start s)) as TB.
+  destruct Hok as [H0 [Hs1 H3]]. pose proof (mod8_bound (s_start s)) as TB.
   unfold good. cbn [f_byte f_off f_len f_mask]. repeat split; try lia. apply Z.div_pos; lia.
 Qed.
 
@@ -573,7 +575,7 @@ Theorem decode_be_one_byte_refuted_all size s :
 Proof.
   intros Hok Hd. unfold d08 in Hd. apply andb_prop in Hd. destruct Hd as [Hd Hasym].
   apply andb_prop in Hd. destruct Hd as [Hbe H1].
-  pose proof Hok as [H0 [[Hs1 Hs2] H3]].
+  pose proof Hok as [H0 [Hs1 H3]].
   set (t := s_start s mod 8). set (b := s_start s / 8).
   pose proof (mod8_bound (s_start s)) as TB. fold t in TB. pose proof (div8_eq (s_start s)) as SE. fold t b in SE.
   assert (Hb : 0 <= b) by (apply Z.div_pos; lia).
@@ -607,6 +609,48 @@ Proof.
     destruct (divmod8 (s_start s + s_size s - 1 - 0) b (t + s_size s - 1) ltac:(lia) ltac:(lia)) as [D M].
     rewrite D, M, Hbyte. apply Z.pow2_bits_false. lia. }
   rewrite Heq in B0. congruence.
+Qed.
+
+(* ------------------------------------------------------------------ every mask lies inside the payload *)
+Theorem filters_inside size s f : sig_ok size s -> In f (sig_filters s) ->
+  0 <= f_byte f /\ 8 * f_byte f < size.
+Proof.
+  intros Hok Hf. pose proof Hok as [H0 [H1 H3]]. unfold s_end in H3.
+  destruct (sig_filters_shape size s Hok) as [Gs [Ts _]]. rewrite Forall_forall in Gs.
+  pose proof (Gs f Hf) as [Gb [Go [Gl [Gol _]]]]. split; [exact Gb|].
+  destruct (s_be s) eqn:Hbe.
+  - destruct (d08 s) eqn:Hd.
+    + (* one byte: the filter sits in byte start/8 *)
+      unfold d08 in Hd. rewrite Hbe in Hd. cbn [andb] in Hd. apply andb_prop in Hd. destruct Hd as [Ho _].
+      destruct (single_filter size s Hok (proj1 (Z.eqb_eq _ _) Ho)) as [E _]. rewrite E in Hf.
+      destruct Hf as [<-|[]]. cbn [f_byte]. pose proof (div8_eq (s_start s)). pose proof (mod8_bound (s_start s)). lia.
+    + destruct (sig_filters_be size s Hok Hbe Hd) as [Ch _].
+      pose proof (be_chain_range _ _ f Ch Hf) as R. rewrite Ts in R. lia.
+  - destruct (sig_filters_le size s Hok Hbe) as [Ch _].
+    pose proof (le_chain_range _ _ f Ch Hf) as R. rewrite Ts in R. lia.
+Qed.
+
+Theorem gen_filters_inside size l f : Forall (sig_ok size) l -> In f (gen_filters l) ->
+  0 <= f_byte f /\ 8 * f_byte f < size.
+Proof.
+  intros Hall Hf. unfold gen_filters in Hf. apply in_flat_map in Hf. destruct Hf as [s [Hs Hin]].
+  rewrite Forall_forall in Hall. exact (filters_inside size s f (Hall s Hs) Hin).
+Qed.
+
+(* the raw value of a signal of at most 64 bits is a number of exactly that many bits: it is the
+   `raw` the C03 decoding theorems take (0 <= raw < 2^n) *)
+Theorem sig_raw_range size s data :
+  sig_ok size s -> narrow s -> bytes_ok data -> size <= nbits data ->
+  0 <= sig_raw s data < 2 ^ s_size s.
+Proof.
+  intros Hok Hn Hd Hsz. pose proof Hok as [H0 [H1 H3]].
+  assert (P : 0 < 2 ^ s_size s) by (apply Z.pow_pos_nonneg; lia).
+  destruct (s_be s) eqn:Hbe.
+  - destruct (one_byte s) eqn:Ho.
+    + rewrite (decode_be_one_byte_spec size s data Hok Hbe Ho Hd). unfold raw_le. apply Z.mod_pos_bound. exact P.
+    + assert (D : d08 s = false) by (unfold d08; rewrite Ho; rewrite andb_false_r; reflexivity).
+      rewrite (decode_be_spec size s data Hok Hn Hbe D Hd Hsz). unfold raw_be. apply Z.mod_pos_bound. exact P.
+  - rewrite (decode_le_spec size s data Hok Hn Hbe Hd). unfold raw_le. apply Z.mod_pos_bound. exact P.
 Qed.
 
 (* ------------------------------------------------------------------ the D08 shape, refuted *)
